@@ -181,6 +181,12 @@ static inline void wb_thread_join(struct wb_thread *t) { WB_ASSERT(t->joinable, 
 
 /* ---- std::mt19937 and distributions: opaque state ---- */
 struct wb_mt19937 { unsigned long state; };
+/* engine.seed(s): the state becomes a function of s alone (ghost event WB_SEEDED for contracts) */
+#ifndef WB_SEEDED
+#define WB_SEEDED(s)
+#endif
+unsigned long __CPROVER_uninterpreted_mt19937_state_of_seed(unsigned int);
+static inline void wb_mt19937_seed(struct wb_mt19937 *e, unsigned int s) { e->state = __CPROVER_uninterpreted_mt19937_state_of_seed(s); WB_SEEDED(s); }
 struct wb_uniform_real { double a; double b; };
 struct wb_normal_dist { double mean; double stddev; };
 /* drawing from a distribution: contract stubs (the engine state is the only thing assigned) */
